@@ -17,6 +17,14 @@ CHECKS = {
             "Trusts central differences with h=1e-6 on k/8 value grids (error <=1e-8 relative; tolerance 1e-5 / "
             "2e-3 for float32) and that the forward is deterministic; forward-rejected cases are not judged here.",
             "DESIGN.md 4/C01"),
+    "C02": ("property-based differential testing (Hypothesis) against a finite-difference VJP oracle",
+            "Generated-input search over every nn op/layer/loss (functional and module forms) x geometry/mode/"
+            "reduction/dim x values x requires-grad subsets of data/weight/bias/gamma/beta/target x upstream "
+            "gradients; each gradient is compared with central finite differences (float64) of synapgrad's own "
+            "forward; relu-family kinks and max-pool ties are checked for subgradient membership.",
+            "Trusts central differences on kink-free value grids (tolerance 1e-5 / 2e-3 float32); batch-norm running "
+            "statistics re-created and dropout re-seeded per evaluation so the differentiated function is pure.",
+            "DESIGN.md 4/C02"),
     "C05": ("property-based differential testing (Hypothesis) against independent NumPy reference models",
             "Generated-input search over every tensor op, constructor and iteration pattern; results are compared "
             "(shape exactly, values bit-exactly for data movement / to rounding for arithmetic) with an independent "
@@ -25,6 +33,21 @@ CHECKS = {
             "Trusts NumPy as the definition of broadcasting/indexing and the transcribed PyTorch semantics of "
             "squeeze/flatten/unfold/movedim in synverif/ops.py; the 1e-12 guard inside log is admitted by tolerance.",
             "DESIGN.md 4/C05"),
+    "C06": ("property-based differential testing (Hypothesis) against loop-based NumPy reference models, partly exhaustive",
+            "Generated-input search over every nn op/layer/loss with the full geometry/mode/reduction draw; results "
+            "compared with loop-based float64 reference models transcribed from the PyTorch definitions under an "
+            "accept/reject protocol; extra sub-checks for padding='same'/'valid', no-window rejection, the BCE "
+            "clamp, and an enumerated 1-D output-size grid (L<=8,k<=4,s<=4,p<=3,d<=3; exhaustive in thorough).",
+            "Trusts the reference models in synverif/nnops.py and ref_conv.py; tolerance 1e-4*scale float32, "
+            "1e-10*scale float64, bit-exact for max-pool/unfold.",
+            "DESIGN.md 4/C06"),
+    "C09": ("property-based differential testing (Hypothesis) against high-precision stable reference formulas",
+            "Generated-input search over float32/float64 inputs up to 1e4 (exp-overflow thresholds salted in) and "
+            "logit rows with spreads up to 2e4 for sigmoid/tanh/selu/softmax/log_softmax/cross-entropy/"
+            "BCE-with-logits (functional and module forms): outputs and input gradients must be finite and within "
+            "8*eps32*max(1,|x|max) of float64 stable formulas (scipy.special) and closed-form gradients.",
+            "Trusts scipy.special expit/softmax/log_softmax and numpy expm1/log1p as exact to double rounding.",
+            "DESIGN.md 4/C09"),
     "C16": ("property-based differential + metamorphic testing (Hypothesis) with an enumerated geometry grid",
             "Generated-input search: the three im2col and three col2im implementations, extract_windows and "
             "place_windows are compared bit-wise against a brute-force loop reference, and the adjoint and "
